@@ -43,7 +43,7 @@ def run(ctx):
     shards = 12 if thorough else 6
     count = 150 if thorough else 25
     rcases = [dict(mode="rand", what="c09", seed=ctx.seed * 1000 + i, count=count) for i in range(shards)]
-    rres = M.run_driver(ctx, rcases, "c09-rand")
+    rres = M.run_driver(ctx, rcases, "c09-rand", case_timeout="90s")
     trace = M.consume(ctx, rcases, rres, stats)
     ctx.sample(rcases[0])
     M.validate_trace(ctx, trace, stats, "c09")
